@@ -17,6 +17,7 @@ pub struct FaultStats {
 	pub commits_refused: u64,
 	pub reopened: u64,
 	pub max_ops_in_step: u64,
+	pub power_loss_images: u64,
 }
 
 impl FaultStats {
@@ -27,6 +28,7 @@ impl FaultStats {
 		self.commits_refused += o.commits_refused;
 		self.reopened += o.reopened;
 		self.max_ops_in_step = self.max_ops_in_step.max(o.max_ops_in_step);
+		self.power_loss_images += o.power_loss_images;
 	}
 }
 
@@ -117,6 +119,39 @@ fn one_inner(scn: &Scenario, dir: &Path, hist: &[Ev], ev: &Ev, mode: u8, j: usiz
 			}
 			if let Some(f) = bad {
 				return Err(tag(Fail::new(&f.kind, format!("reads after the failure: {}", f.msg))))
+			}
+			// The workers may each finish the iteration they were in when the failure was reported: one more
+			// enact and one more cleanup step (results ignored), then the power goes: of everything not synced an
+			// arbitrary subset of pages survives. Recovery must still give a prefix holding every synced commit.
+			if scn.faults_then_power_loss {
+				let db = ex.db();
+				let _ = std::panic::catch_unwind(std::panic::AssertUnwindSafe(|| {
+					let _ = db.verif_step(parity_db::verif::Stage::EnactOne);
+					let _ = db.verif_step(parity_db::verif::Stage::CleanLogs);
+				}));
+				let was = crash::pause();
+				let ops = crash::stop_peek();
+				crash::resume(was);
+				let (vol, dur) = crate::crashmc::shadows(&ops);
+				let mut models = vec![crate::model::Model::new(&scn.cfg)];
+				models.extend(ex.prefix.iter().cloned());
+				let prefix_obs: Vec<String> = models.iter().map(|m| crate::observe::observe_model(m, &scn.universe)).collect();
+				let cc = crate::crashmc::CrashCfg { torn: 0, recovery_depth: 1, power_loss: true, max_full_subsets: 6, ..Default::default() };
+				let ctx = crate::crashmc::Ctx { cfg: &scn.cfg, universe: scn.universe.clone(), prefix_obs, prefix: &models, accepted: &ex.accepted_txs, crash: &cc, property: &scn.property };
+				let mut cs = crate::crashmc::CrashStats::default();
+				let was = crash::pause();
+				let fa = crash::FAULT_AFTER.swap(-1, SeqCst);
+				if mode == 1 {
+					parity_db::set_number_of_allowed_io_operations(usize::MAX);
+				}
+				let r = crate::crashmc::power_loss(&ctx, &vol, &dur, synced, n, &format!("{}; the enact and cleanup workers finish their iteration; then", what), &mut cs);
+				crash::FAULT_AFTER.store(fa, SeqCst);
+				if mode == 1 {
+					parity_db::set_number_of_allowed_io_operations(0);
+				}
+				crash::resume(was);
+				stats.power_loss_images += cs.power_loss_images;
+				r.map_err(|f| Fail::new(&format!("fault-then-power-loss-{}", f.kind), f.msg))?;
 			}
 			// drop with the fault still present must terminate without panic
 			ex.close().map_err(tag)?;
